@@ -32,7 +32,7 @@ DESC4 = {
     "C16-6": ("new SourceFile._element_to_code (lru_cache'd formatting of inserted elements) used by the list-insert sites; skips the lone-string parenthesis protection", "black importable, no format-command, a fix / `in` run that INSERTS a string with leading / trailing blanks into an existing list: another string than with the other formatter setups", True),
     "C17-5": ("generic_value.clone returns a @dataclass(frozen=True) instance as it is", "the compared value is a frozen dataclass holding a list / dict that is changed after the assertion", True),
     "C17-6": ("collection_value.__contains__: a tested value that is already a member of the existing snapshot is stored without clone()", "an existing `in` snapshot containing the tested mutable value, mutated afterwards, with fix and / or trim", False),
-    "C18-5": (None, None, False), "C18-6": (None, None, False),
+    "C18-5": (None, None, False), "C18-6": (None, None, True),
     "C19-5": ("Example.run_inline executes each file as a real module and picks the tests with inspect.getmembers (sorted by name)", "an example whose tests are not defined in alphabetical order and whose snapshots depend on the order in which they run (shared module state)", True),
     "C19-6": (None, None, False),
     "C20-5": (None, None, False),
